@@ -94,6 +94,7 @@ type ShardOpts struct {
 	Binary     string // override binary (e.g. race build)
 	OnOut      func(o WorkerOut, raw json.RawMessage)
 	CrashClass func(raw json.RawMessage, how string) Finding // finding for a case that killed / hung the worker
+	MaxCrashes int                                           // a shard is abandoned after this many dead workers (default 200)
 }
 
 // RunSharded replays cases in worker processes and folds findings into c.
@@ -215,8 +216,12 @@ func (c *Ctx) RunSharded(cases []json.RawMessage, o ShardOpts) error {
 					c.InfraError("worker %s %s on case %s: %s", o.Worker, how, cases[culprit], se)
 				}
 				pending = pending[done+1:]
-				if round > 200 {
-					if crashFindings > 100 {
+				maxRounds := 200
+				if o.MaxCrashes > 0 {
+					maxRounds = o.MaxCrashes
+				}
+				if round > maxRounds {
+					if crashFindings > maxRounds/2 {
 						// more than a hundred dead workers have been reported as findings already: the verdict is a
 						// violation; the rest of this shard is not run (every further crash costs a process start)
 						c.Inconclusive(fmt.Sprintf("not-run-after-%d-crashes-in-one-shard", round))
